@@ -2,6 +2,7 @@ package checks
 
 import (
 	"fmt"
+	"io/fs"
 	"regexp"
 	"strings"
 
@@ -24,6 +25,25 @@ type c17Cfg struct {
 	Delta   c17Sub   `dials:"delta"`
 	Epsilon bool     `dials:"epsilon"`
 	Pad     string   `dials:"pad"`
+	// Ref refers to something outside the file; its text form is validated
+	// by the type itself (see c17PathRef).
+	Ref c17PathRef `dials:"ref"`
+}
+
+// c17PathRef is a text-unmarshalable leaf that stands for "a path the config
+// refers to and that has to exist" (CA bundle, key file, include). It does
+// not touch the file system: the marker text "missing:<n>" is rejected with an
+// error that WRAPS fs.ErrNotExist, exactly what an os.Stat-based validation
+// returns. To the file source this is a decoder error like any other.
+type c17PathRef string
+
+// UnmarshalText implements encoding.TextUnmarshaler.
+func (p *c17PathRef) UnmarshalText(b []byte) error {
+	if strings.HasPrefix(string(b), "missing:") {
+		return fmt.Errorf("referenced file %q is unusable: %w", string(b), fs.ErrNotExist)
+	}
+	*p = c17PathRef(b)
+	return nil
 }
 
 type c17Sub struct {
@@ -32,7 +52,7 @@ type c17Sub struct {
 }
 
 func c17Defaults() *c17Cfg {
-	return &c17Cfg{Alpha: -1, Beta: "default-beta", Gamma: []string{"dg"}, Delta: c17Sub{Port: 80, Host: "default-host"}}
+	return &c17Cfg{Alpha: -1, Beta: "default-beta", Gamma: []string{"dg"}, Delta: c17Sub{Port: 80, Host: "default-host"}, Ref: "default-ref"}
 }
 
 // c17Content is one complete file content.
@@ -173,6 +193,10 @@ func (g *c17Gen) validDoc(k int) []byte {
 		}
 		fields = append(fields, kv{"delta", j, y})
 	}
+	if r.Chance(55) {
+		s := fmt.Sprintf("ok-%d-%s.pem", k, g.word())
+		fields = append(fields, kv{"ref", fmt.Sprintf("%q", s), fmt.Sprintf("%q", s)})
+	}
 	if r.Chance(50) {
 		v := "false"
 		if r.Bool() {
@@ -245,7 +269,11 @@ func (g *c17Gen) validDoc(k int) []byte {
 func (g *c17Gen) malformedDoc(k int) (string, []byte) {
 	r := g.r
 	if g.h.Decoder == "json" {
-		switch r.Intn(7) {
+		switch r.Intn(8) {
+		case 7:
+			// well-formed, every other field fine: rejected by the ref field's own
+			// UnmarshalText with an error wrapping fs.ErrNotExist
+			return "decoder-notexist", []byte(fmt.Sprintf(`{"alpha": %d, "beta": "b%d", "ref": "missing:%d.pem"}`+"\n", 1000+k, k, k))
 		case 0:
 			v := g.validDoc(k)
 			v = []byte(strings.TrimRight(string(v), "\n "))
@@ -265,7 +293,9 @@ func (g *c17Gen) malformedDoc(k int) (string, []byte) {
 			return "struct-scalar", []byte(fmt.Sprintf(`{"alpha": %d, "delta": %d}`, 1000+k, k))
 		}
 	}
-	switch r.Intn(6) {
+	switch r.Intn(7) {
+	case 6:
+		return "decoder-notexist", []byte(fmt.Sprintf("alpha: %d\nbeta: \"b%d\"\nref: \"missing:%d.pem\"\n", 1000+k, k, k))
 	case 0:
 		return "tab-indent", []byte(fmt.Sprintf("alpha: %d\ndelta:\n\tport: %d\n", 1000+k, k))
 	case 1:
